@@ -2,10 +2,12 @@ import sys, json, time
 from sympy import factorint, isprime, primitive_root
 sys.setrecursionlimit(10000)
 cert={}
+HINT={2**252+27742317777372353535851937790883648493:{2:2,3:1,11:1,198211423230930754013084525763697:1,276602624281642239937218680557139826668747:1}}
+# the two large cofactors of l-1 are the well-known factorisation (checked by multiplication in gen_pratt_lean.py and by the Lean kernel)
 def go(p):
     if p in cert or p < 100: return
     t=time.time()
-    f=factorint(p-1)
+    f=HINT[p] if p in HINT else factorint(p-1)
     # find witness
     a=2
     while True:
@@ -18,4 +20,4 @@ for name,p in [("secp_p",2**256-2**32-977),("secp_n",0xFFFFFFFFFFFFFFFFFFFFFFFFF
   ("p256_p",0xFFFFFFFF00000001000000000000000000000000FFFFFFFFFFFFFFFFFFFFFFFF),("p256_n",0xFFFFFFFF00000000FFFFFFFFFFFFFFFFBCE6FAADA7179E84F3B9CAC2FC632551),
   ("ed_p",2**255-19),("ed_l",2**252+27742317777372353535851937790883648493)]:
     go(p); print(name,'done',file=sys.stderr,flush=True)
-    json.dump({str(k):[v[0],[[str(q),e] for q,e in v[1]]] for k,v in cert.items()}, open('/tmp/pratt.json','w'))
+    json.dump({str(k):[v[0],[[str(q),e] for q,e in v[1]]] for k,v in cert.items()}, open(__import__('os').path.join(__import__('os').path.dirname(__import__('os').path.abspath(__file__)),'pratt.json'),'w'))
